@@ -94,6 +94,49 @@ if os.environ.get('MODE') == 'cond':
                     for k in range(len(parts)):
                         rest = parts[:k] + parts[k+1:]
                         mutants.append((f, i, line, pre + init + op.join(rest) + post))
+if os.environ.get('MODE') == 'swap':
+    # same-typed sibling swaps: one occurrence of a name replaced by a sibling of the same type
+    SIB = [('EndLineNumber', 'LineNumber'), ('LineNumber', 'EndLineNumber'), ('StartCharIndex', 'EndCharIndex'), ('EndCharIndex', 'StartCharIndex'),
+           ('StartUtf8CharIndex', 'EndUtf8CharIndex'), ('EndUtf8CharIndex', 'StartUtf8CharIndex'), ('StartCharIndex', 'StartUtf8CharIndex'), ('EndCharIndex', 'EndUtf8CharIndex'),
+           ('curToken', 'peekToken'), ('peekToken', 'curToken'), ('peekToken', 'peek2Token'), ('peek2Token', 'peekToken'), ('peek2Token', 'peek3Token'), ('peek3Token', 'peek2Token'),
+           ('returnID', 'id'), ('destChunkID', 'returnID'), ('truthyDest', 'falseyDest'), ('falseyReturnID', 'returnID'), ('charNumber', 'utf8CharNumber'), ('prevCharNumber', 'charNumber'), ('prevUtf8CharNumber', 'utf8CharNumber'),
+           ('position', 'readPosition'), ('readPosition', 'position'), ('breakStack', 'continueStack'), ('continueStack', 'breakStack'), ('inlineTextCounts', 'inlineMovementCounts'),
+           ('GLOBAL', 'LOCAL'), ('LOCAL', 'GLOBAL'), ('Consequence', 'ElseConsequence'), ('token.TRUE', 'token.FALSE'), ('token.FALSE', 'token.TRUE'),
+           ('token.LPAREN', 'token.RPAREN'), ('token.RPAREN', 'token.LPAREN'), ('token.LBRACE', 'token.RBRACE'), ('token.RBRACE', 'token.LBRACE'), ('token.EQ', 'token.NEQ'), ('token.LT', 'token.LTE'), ('token.GT', 'token.GTE'),
+           ('token.AND', 'token.OR'), ('token.OR', 'token.AND'), ('token.COMMA', 'token.COLON'), ('token.IDENT', 'token.INT'), ('token.STRING', 'token.IDENT')]
+    mutants = []
+    for f in files:
+        if f.startswith('ast/') or f.startswith('token/'):
+            continue
+        lines = open(os.path.join(REPO, f)).read().split('\n')
+        for i, line in enumerate(lines):
+            s_ = line.strip()
+            if not s_ or s_.startswith('//'):
+                continue
+            code = line.split('//')[0]
+            for a, b in SIB:
+                for m in re.finditer(r'(?<![\w])' + re.escape(a) + r'(?![\w])', code):
+                    mutants.append((f, i, line, line[:m.start()] + b + line[m.end():]))
+if os.environ.get('MODE') == 'args':
+    # adjacent simple arguments of a call swapped (the build filters out the ill-typed ones)
+    mutants = []
+    arg = r'(&?[\w.\[\]\*]+(?:\(\))?)'
+    for f in files:
+        if f.startswith('ast/') or f.startswith('token/'):
+            continue
+        lines = open(os.path.join(REPO, f)).read().split('\n')
+        for i, line in enumerate(lines):
+            s_ = line.strip()
+            if not s_ or s_.startswith('//') or s_.startswith('func '):
+                continue
+            masked = re.sub(r'"(\\.|[^"\\])*"|`[^`]*`', lambda m: '"' + 'x' * (len(m.group(0)) - 2) + '"', line)
+            for m in re.finditer(r'(?<=[(,] )' + arg + ', ' + arg + r'(?=[,)])|(?<=\()' + arg + ', ' + arg + r'(?=[,)])', masked):
+                a, b = (m.group(1), m.group(2)) if m.group(1) else (m.group(3), m.group(4))
+                if a == b:
+                    continue
+                new_line = line[:m.start()] + line[m.start():m.end()].replace(a + ', ' + b, b + ', ' + a, 1) + line[m.end():]
+                if new_line != line:
+                    mutants.append((f, i, line, new_line))
 print(len(files), 'files', len(mutants), 'mutants', flush=True)
 
 def run(k):
